@@ -405,6 +405,7 @@ fn summarize_trace(t: &crate::trace::Trace, max_events: usize) -> serde_json::Va
         .take(max_events)
         .map(|e| match e {
             Ev::Restart { t } => serde_json::json!({"kind": "collector_restart", "t_ns": t}),
+            Ev::ResetCaches { t, p, v9, ipfix } => serde_json::json!({"kind": "caches_reset_by_caller", "t_ns": t, "parser": p, "v9": v9, "ipfix": ipfix}),
             Ev::Reconfigure { t, p, allowed } => serde_json::json!({"kind": "allowed_versions_changed", "t_ns": t, "parser": p, "allowed": allowed}),
             Ev::Deliver { t, p, buf, parts, cut, faults } => serde_json::json!({
                 "kind": "deliver", "t_ns": t, "parser": p, "bytes": buf.len(), "packets_in_buffer": parts.len(),
